@@ -16,6 +16,7 @@ import NV.C16.Tree
 import NV.C16.ProofTree
 import NV.C16.ProofHash
 import NV.C16.Globals
+import NV.C16.ProofVersion
 
 namespace NV.C16.Props
 
@@ -244,6 +245,23 @@ theorem object_roundtrip_noclear (F : FloatOps α) (mb : MbLen) (prog : List Nat
     ∃ res, restoreObject F mb true (some (saveFileText F prog z vars)) live = (1, RoOut.done res) ∧
       ObjRestoredNC F z vars live res :=
   NV.C16.object_roundtrip_noclear F mb prog z vars live hprog hs hf hdp hlay
+
+/-- **restore_object into another version of the program** (variables renamed / removed / added / reordered, made
+static ("nosave") or non-static, moved into or out of an inherited program — `cur` is ANY variable table with pairwise
+different names; with `restoreObjectT_flat` the flat tables are the `slots` of the two program trees): the efun returns 1
+without an error and leaves in every variable of the restoring object exactly `After` (ProofVersion.lean): a non-static
+variable whose name has a line in the file (`written`: the non-static variables of the saving program, those with the
+text "0" only with save_zeros) holds that saved value up to `Equiv`; every other variable — static ones, names the file
+does not have — is what it was when the lines were read (its live value with the no-clear flag, else 0 for a
+non-static one); lines of unknown or static names are skipped.  Declared types play no part. -/
+theorem restore_into_another_program_version (F : FloatOps α) (mb : MbLen) (prog : List Nat) (z nc : Bool)
+    (ss live : List (Var α)) (hprog : ∀ b ∈ prog, b ≠ 10 ∧ b ≠ 0) (hs : objSavable ss = true)
+    (hf : ∀ v ∈ ss, v.isStatic = false → FloatsOK F v.val)
+    (hdp : ∀ v ∈ ss, v.isStatic = false → saveVariable F v.val ≠ SaveOut.tooDeep)
+    (hlive : (live.map (·.name)).Nodup) :
+    ∃ res, restoreObject F mb nc (some (saveFileText F prog z ss)) live = (1, RoOut.done res) ∧
+      Rel2 (After F (written F z ss)) (if nc then live else live.map clearVar) res :=
+  NV.C16.restoreObject_other_version F mb prog z nc ss live hprog hs hf hdp hlive
 
 /-! ## bridging lemmas over the REGENERATED source facts (NV/Gen/C16.lean): a changed C line breaks these -/
 
